@@ -282,10 +282,56 @@ def run(facts, R):
         if (v["rule"] == "pending-removed-on-abandon" and v.get("what") in keep6) or v["rule"] == "anchor-resolution":
             R.bad("own-entry-only", v["fn"], v["what"], v["msg"] + " (a served call's late Drop would remove whatever entry now sits under its id)", v.get("site"), v.get("path"))
 
+    every_response_is_looked_up(facts, R, "deliver-by-key")
+
     # ---------------- index-travels (batch) ---------------------------------------------------------------
     batch_blocking(facts, R)
     for path in ("async_client::AsyncClient::batch_json_inner::{closure#0}",) + (("websocket_client::WebSocketClient::batch_json_inner::{closure#0}",) if has_ws else ()):
         batch_async(facts, R, path)
+
+
+def every_response_is_looked_up(facts, R, rule):
+    """Between reading a response and reading the next frame, every path consults the pending table under that response's id
+    (frames known to be notifies go to the subscriber instead).  A filter in front of the lookup - a set of 'abandoned' ids, a
+    cache of recently answered ids, a rate limit - silently discards the answer of whatever live call carries that id."""
+    has_ws = "websocket" in facts.features
+    n = 0
+    for module, callfn, fwds, loopfn, inner in CLIENTS:
+        if (module == "websocket_client" and not has_ws) or not facts.has_body(loopfn):
+            continue
+        lb = facts.body(loopfn)
+        ls = Sym(lb)
+        removes = [(i, t) for i, t in lb.calls() if t["callee"]["name"] == "remove" and "HashMap" in t["callee"]["path"]]
+        if len(removes) != 1:
+            continue        # deliver-by-key reports that
+        ri, rt = removes[0]
+        key = ls.op(rt["args"][1])
+        if not (key[0] == "field" and key[2] == "id" and key[1][0] == "field" and key[1][2] == "header"):
+            continue
+        resp = key[1][1]
+        need = [(x[1], str(x[2])) for x in walk(resp) if x[0] == "variant"]
+        reads_ = [term_pt(lb, x) for x, y in lb.calls() if callee_matches(y["callee"], "io::read_message", "async_io::read_message_async")
+                  or (y["callee"]["name"] == "next" and "Stream" in (y["callee"].get("trait") or ""))]
+        region, notif = set(), []
+        for x in sorted(lb.live_blocks()):
+            fs = facts_at(lb, ls, facts, x)
+            if all(any(f["expr"] == a and str(f["val"]) == v for f in fs) for a, v in need):
+                region.add(x)
+                if any(f["expr"][0] == "bin" and f["expr"][1] in ("Ne", "Eq") and render(f["expr"][2]).endswith("header.notify") and const_val(f["expr"][3]) == 0
+                       and ((f["expr"][1] == "Ne" and f["val"] is True) or (f["expr"][1] == "Eq" and f["val"] is False)) for f in fs):
+                    notif.append((x, 0))
+        entries = [(x, 0) for x in region if any(q not in region for q in lb.preds().get(x, []))]
+        if not need or not entries or not reads_:
+            R.bad(rule, lb.path, "every response read is looked up in the pending table",
+                  "cannot locate where the response loop has a decoded response in hand (key %s)" % render(key)[:120], rt.get("span"))
+            continue
+        n += 1
+        w = must_cross(lb, entries, reads_, [term_pt(lb, ri)], after_start=False, stop=notif)
+        R.check(w is None, rule, lb.path, "every response read is looked up in the pending table",
+                "the %s response loop can drop a decoded response and go on to the next frame without consulting the pending table: whatever is "
+                "filtered in front of the lookup also swallows the answer of a live call that carries the same id" % module, rt.get("span"),
+                "decoded response -> pending.remove(id) on every path (notifies excepted)", path=w)
+    R.floor(rule, n, 2, "response loops with a decoded response in hand")
 
 
 def _in_inner_cycle(b, send_bb, read_bb):
@@ -367,6 +413,47 @@ def batch_blocking(facts, R):
         ok = _queue_item_slots(facts, path) is not None
         R.check(ok, "index-travels", c.path, "(index, (path, body)) -> (index, path, body)", "mapper builds %s" % render(v), c.span, render(v))
     bs = Sym(b)
+    # ... and what the batch returns, on every path, is the vector the workers store into by index (or nothing, for no requests)
+    from rules.common import value_rows
+    r_out = None
+    if len(stores) == 1:
+        o_ = ws.op(stores[0][1]["args"][0])
+        if o_[0] == "local":
+            o_ = ws.local(o_[1])
+        caps = [x for x in walk(o_) if x[0] == "field" and x[1][0] == "arg" and x[1][1] == 1]
+        if not caps:
+            # the slot vector reached through a lock guard bound by a match (`match results.lock() { Ok(g) => g, Err(p) => p.into_inner() }`)
+            seen_ = set()
+            work_ = [stores[0][1]["args"][0]]
+            while work_ and len(seen_) < 40:
+                for o in trace_op(worker, work_.pop()):
+                    if o.ident() in seen_:
+                        continue
+                    seen_.add(o.ident())
+                    if o.kind == "call":
+                        for a_ in o.info["args"][:1]:
+                            caps += [x for x in walk(ws.op(a_)) if x[0] == "field" and x[1][0] == "arg" and x[1][1] == 1]
+                            work_.append(a_)
+                    elif o.kind == "arg" and o.key == 1 and o.path:
+                        caps.append(("field", ("arg", 1, None), o.path[0]))
+        capname = caps[0][2] if caps else None
+        for i, j, st_ in b.assigns():
+            rv_ = st_["rv"]
+            if rv_.get("agg") == "closure" and capname is not None:
+                cv = bs.rvalue(rv_)
+                d_ = dict(cv[3]) if cv[0] == "agg" else {}
+                if capname in d_ and str(cv[1]).endswith(worker.path.rsplit("::", 1)[-1]):
+                    e_ = d_[capname]
+                    while e_[0] == "call" and len(e_[2]) == 1 and e_[1].rsplit("::", 1)[-1] in ("clone", "deref", "as_ref", "borrow"):
+                        e_ = e_[2][0]
+                    r_out = render(e_)
+    rows_ = value_rows(b, bs, facts, 0, fmt=render)
+    for g_, v_ in rows_:
+        vv = v_ if isinstance(v_, str) else render(v_)
+        empty = vv.startswith(("Vec::new(", "vec::Vec::new("))
+        R.check(empty or (r_out is not None and r_out in vv), "index-travels", path, "the batch returns the vector filled by index",
+                "a batch result is produced as %s, which is not the vector (%s) whose slots the workers store by request index" % (vv[:200], (r_out or "?")[:80]), b.span, "out")
+    R.floor("index-travels", len(rows_), 1, "result rows of " + path)
     chain = [t["callee"]["name"] for i, t in b.calls() if t["callee"].get("trait") == "std::iter::Iterator"]
     R.check("enumerate" in chain and not any(n in chain for n in ("rev", "skip", "step_by", "zip", "filter")), "index-travels", path, "queue = requests.enumerate()",
             "iterator chain is %s" % chain, b.span, "chain: %s" % chain)
@@ -528,6 +615,22 @@ def batch_async(facts, R, path):
                 awaited_same = True
     R.check(base2 is not None and okv and awaited_same, "index-travels", path, "out[item.0] = await item.1",
             "second loop stores at %s; awaited handle from the same item: %s" % (render(idx2), awaited_same), st.get("span"), "index and handle come from one workers item")
+    # ... and what the batch returns, on every path, is that vector: a second route to the result (a windowed / streaming
+    # variant for large batches, a fast path for small ones) has to place results by index too, or slot i holds whichever
+    # response arrived i-th
+    from rules.common import value_rows
+    outv = s.op(st["args"][0])
+    while outv[0] == "call" and len(outv[2]) == 1 and outv[1].rsplit("::", 1)[-1] in ("deref", "deref_mut", "as_mut", "borrow_mut", "as_mut_slice"):
+        outv = outv[2][0]
+    r_out = render(outv)
+    rows_ = value_rows(b, s, facts, 0, fmt=render)
+    for g_, v_ in rows_:
+        vv = v_ if isinstance(v_, str) else render(v_)
+        empty = vv.startswith(("Vec::new(", "vec::Vec::new(")) or vv == "Vec::new()"
+        R.check(r_out in vv or empty, "index-travels", path, "the batch returns the vector filled by index",
+                "a batch result is produced as %s, which is not the vector whose slots are stored by request index: results come back in whatever "
+                "order that route yields them" % vv[:200], b.span, "out")
+    R.floor("index-travels", len(rows_), 1, "result rows of " + path)
     chain = [t["callee"]["name"] for i, t in b.calls() if t["callee"].get("trait") == "std::iter::Iterator"]
     R.check("enumerate" in chain and not any(n in chain for n in ("rev", "skip", "step_by", "zip", "filter", "skip_while", "take_while", "filter_map", "flat_map", "chain", "cycle")),
             "index-travels", path, "requests.enumerate()",
